@@ -119,6 +119,7 @@ def build_cases(tier):
                      tags=set(tags) | ({f"base:{base_label}"} if base_label != "default" else set()), states=states, **kw)
         add("no_schema_source", IC, section={"schema_path": None}, tags={"cfg:no_schema_source"})
         add("schema_path_missing", IC, section={"schema_path": "nope.graphql"}, names_in_msg=["nope.graphql"], tags={"cfg:path"})
+        add("schema_path_missing_with_remote_url", IC, section={"schema_path": "nope.graphql", "remote_schema_url": "http://127.0.0.1:1/graphql"}, names_in_msg=["nope.graphql"], tags={"cfg:path", "both_sources"})
         add("queries_path_missing", IC, section={"queries_path": "nope_q.graphql"}, names_in_msg=["nope_q.graphql"], tags={"cfg:path"})
         add("queries_path_absent", MC, section={"queries_path": None}, names_in_msg=["queries_path"], tags={"cfg:missing_key"})
         add("target_package_path_missing", IC, section={"target_package_path": "no_such_dir"}, names_in_msg=["no_such_dir"], tags={"cfg:path"}, states=("absent",))
@@ -141,6 +142,8 @@ def build_cases(tier):
         add("scalar_without_type", MC, section={"scalars": {"Date": {"parse": "x.parse"}}}, names_in_msg=["type"], tags={"cfg:scalar"})
         add("header_env_unset", IC, section={"schema_path": None, "remote_schema_url": "http://localhost:1/graphql", "remote_schema_headers": {"Authorization": "$VERIF_UNSET_VARIABLE"}},
             names_in_msg=["VERIF_UNSET_VARIABLE"], tags={"cfg:header"})
+        add("schema_path_missing_with_remote_url_gs", IC, strategy="graphqlschema", section={"schema_path": "nope.graphql", "remote_schema_url": "http://127.0.0.1:1/graphql", "target_file_path": "schema_out.py"},
+            names_in_msg=["nope.graphql"], tags={"cfg:path", "both_sources"})
         add("no_section", MC, raw_toml='[tool.other]\nx = 1\n', tags={"cfg:no_section"})
         for bad, tag in (("schema_out", "missing"), ("schema_out.txt", "unknown"), ("schema_out.", "missing")):
             add(f"target_file_type_{tag}", IC, strategy="graphqlschema", section={"target_file_path": bad}, names_in_msg=[bad], tags={"cfg:target_file_type"})
